@@ -323,16 +323,24 @@ def run_rearm(res: Result, tier):
                              [ENTRY, le3(ROM_BASE).hex()]],
                     "regs": {"PC": ROM_BASE, "S": 0xB9000}, "imem": {0xFB: 0, 0xFC: 0},
                     "timer": {"enabled": True, "mti": p, "sti": 0, "kb_irq": False}}
-            script = [("obs",)]
-            for i in range(150):
-                if i == t:
-                    script.append(("treset",))
-                script.append(("step",))
-            jobs.append((scen, script, p, t))
-    routs = machine.run_rust([(s_, sc) for s_, sc, _p, _t in jobs], key_codes())
-    for (scen, script, p, t), (robs, rerr, _raw) in zip(jobs, routs):
-        pobs = machine.PyMachine(scen).run(script)
+            for restart in (False, True):
+                script = [("obs",)]
+                for i in range(150):
+                    if i == t:
+                        if restart:
+                            # ... and restarts the program from its main loop (Rust only: the Python emulator's way of
+                            # restarting is PCE500Emulator.reset(), covered by the "second reset" runs)
+                            script += [("treset", ROM_BASE + len(reset), 0xB9000), ("wimem", 0xFC, 0), ("wimem", 0xFB, 0x81)]
+                        else:
+                            script.append(("treset",))
+                    script.append(("step",))
+                jobs.append((scen, script, p, t, restart))
+    routs = machine.run_rust([(s_, sc) for s_, sc, _p, _t, _r in jobs], key_codes())
+    for (scen, script, p, t, restart), (robs, rerr, _raw) in zip(jobs, routs):
+        pobs = None if restart else machine.PyMachine(scen).run(script)
         for model, obs in (("py", pobs), ("rs", robs)):
+            if obs is None:
+                continue
             res.evaluations += 1
             res.monitor("rearm_inside_handler")
             steps = obs[1:]
@@ -350,13 +358,14 @@ def run_rearm(res: Result, tier):
                     last, prev_cnt = o["cycles"], o["irq_mti"]
             worst = max(worst, steps[-1]["cycles"] - last)
             if worst > 2 * p + 16:
-                res.violation({"clause": "timer_stops_firing_after_rearm", "model": model, "in_handler": bool(in_handler_at_rearm)},
-                              {"model": model, "mti": p, "rearm_at_step": t},
+                res.violation({"clause": "timer_stops_firing_after_rearm", "model": model, "in_handler": bool(in_handler_at_rearm),
+                               "program_restarted": restart},
+                              {"model": model, "mti": p, "rearm_at_step": t, "restart": restart},
                               {"longest_stretch_without_main_timer_interrupt": worst, "period": p,
                                "entries_total": steps[-1]["irq_mti"]})
             else:
-                res.nontrivial("rearm", model, p, t, bool(in_handler_at_rearm))
-                res.table("rearm_points", f"{model}:{'handler' if in_handler_at_rearm else 'main'}")
+                res.nontrivial("rearm", model, p, t, bool(in_handler_at_rearm), restart)
+                res.table("rearm_points", f"{model}:{'handler' if in_handler_at_rearm else 'main'}:{'restart' if restart else 'rearm'}")
 
 
 def plan(tier, seed):
